@@ -464,7 +464,7 @@ func init() {
 				var strs []string
 				k := c.Idx - 257
 				for L := 4; L <= 40; L++ {
-					for off := 0; off < L && off < 18; off++ {
+					for off := 0; off <= L; off++ {
 						sp := specials[(k+L+off)%len(specials)]
 						if r.Intn(3) == 0 {
 							sp = specials[r.Intn(len(specials))]
